@@ -63,8 +63,12 @@ class PseudonymManager:
         # Note: if the given metadata is invalid, the token is still inserted!
         if attestations is None:
             attestations = set()
+        known_hashes = set(self.tree.elements)
         if self.tree.gather_token(token) is not None:
             self.database.insert_token(self.public_key, token)
+            # Tokens that were waiting for this one have been chained in as well: store them too.
+            for token_hash in self.tree.elements.keys() - known_hashes - {token.get_hash()}:
+                self.database.insert_token(self.public_key, self.tree.elements[token_hash])
 
             # If the metadata belongs to this token and chain, insert it.
             if metadata.verify(self.public_key) and metadata.token_pointer == token.get_hash():
